@@ -620,6 +620,18 @@ func parCases(shard, shards int, tier string, yield func(Case) bool) {
 			}
 		}
 	}
+	// another goroutine flips GOMAXPROCS between 2 and 7 while the big calls run
+	flipK := []int{20, 21, 22, 22, 23}
+	if tier == "thorough" {
+		flipK = []int{18, 19, 20, 20, 21, 21, 22, 22, 23, 23, 24, 24, 25, 26}
+	}
+	for j, k := range flipK {
+		c := mk("u8", k, j*4+k, 0, j*3+k+1)
+		c.Procs, c.Flip = 0, true
+		if !emit(c) {
+			return
+		}
+	}
 	// wider cells: the same number of BYTES is reached with fewer cells
 	for _, t := range []struct {
 		T          string
@@ -653,10 +665,12 @@ var specPar = pbt.Register(&pbt.Spec[Case]{
 		"Fill of the whole grid with the zero value (both corners exchanged), Clone (continue on either side, the other a frozen witness), Fill of everything below the first row, Row and RowSpan " +
 		"written through and kept, Set, three calls just outside the bounds (k >= 25: without the zero-value Fill, RowSpan and Set, one call outside). The same with 8-byte (int, k = 18..22), 16-byte (f64x2, k <= 20; " +
 		"any, k = 18), 24-byte (slice, k = 18) and 96-byte (padded, k = 17) cells (thorough: two powers more). " +
+		"Also five cases (k = 20, 21, 22, 22, 23; thorough 14, k = 18..26) during which ANOTHER goroutine flips runtime.GOMAXPROCS between 2 and 7 in a loop. " +
 		"Read-back after the constructor and after EVERY operation: Row(y) of every row compared with the model as a block (length = width) and Get in the columns at the edges of the grid and of " +
 		"the last rectangle / window (in every row up to 4096 rows, else in 4096 rows spread over the grid and those around the rectangle's first, middle and last row); all kept windows and the clone witness likewise; at the end Get over the whole grid (above 2^20 cells: at 2^20 cells spread evenly over it). non-trivial = w != h and a Fill of at least 2^18 cells succeeded",
-	Enum: parCases,
-	Run:  Run, Retries: 3, // what a defect in a parallel path does depends on the scheduling: a replay may need more than one attempt
+	Enum:   parCases,
+	Crashy: true,            // a recursion per element or per chunk would overflow the stack on these sizes
+	Run:    Run, Retries: 3, // what a defect in a parallel path does depends on the scheduling: a replay may need more than one attempt
 })
 
 func TestC08Par(t *testing.T) { pbt.Check(t, specPar) }
